@@ -143,6 +143,45 @@ func Ops() []Op {
 		writeOp("srt", "#2"), writeOp("stl", "#2"),
 		writeOp("ssa", "#alt"), writeOp("stl", "#alt"), writeOp("vtt", "#alt"), writeOp("ttml", "#alt"),
 		readOp("read-ssa-v4plus", "ssa", []byte("[Script Info]\nScriptType: v4.00+\n\n[V4+ Styles]\nFormat: Name, Fontname, Bold, PrimaryColour\nStyle: Default,Arial,-1,&H00FFFFFF\n\n[Events]\nFormat: Layer, Start, End, Style, Name, MarginL, MarginR, MarginV, Effect, Text\nDialogue: 1,0:00:01.00,0:00:02.00,Default,,0,0,0,,{\\i1}x{\\i0} y\n")),
+		{"write-ttml-noindent", func(string) string {
+			var b bytes.Buffer
+			if err := richList("ni").WriteToTTML(&b, astisub.WriteToTTMLWithIndentOption("")); err != nil {
+				return "error: " + err.Error()
+			}
+			return b.String()
+		}},
+		{"write-ttml-tab", func(string) string {
+			var b bytes.Buffer
+			if err := richList("tab").WriteToTTML(&b, astisub.WriteToTTMLWithIndentOption("\t")); err != nil {
+				return "error: " + err.Error()
+			}
+			return b.String()
+		}},
+		{"read-stl-ignore-tcp", func(string) string {
+			s, err := astisub.ReadFromSTL(bytes.NewReader(docData("stl-open-30-tcp10h")), astisub.STLOptions{IgnoreTimecodeStartOfProgramme: true})
+			if err != nil {
+				return "error: " + err.Error()
+			}
+			return dump.Subs(s)
+		}},
+		{"read-ssa-with-callbacks", func(string) string {
+			var seen []string
+			s, err := astisub.ReadFromSSAWithOptions(bytes.NewReader([]byte("[Script Info]\njunk line\nTitle: t\n\n[Fonts]\nx\n\n[Events]\nFormat: Start, End, Text\nDialogue: 0:00:01.00,0:00:02.00,hello\n")), astisub.SSAOptions{
+				OnUnknownSectionName: func(n string) { seen = append(seen, "section:"+n) },
+				OnInvalidLine:        func(l string) { seen = append(seen, "line:"+l) },
+			})
+			if err != nil {
+				return "error: " + err.Error()
+			}
+			return fmt.Sprint(seen) + dump.Subs(s)
+		}},
+		{"read-ts-page-889", func(string) string {
+			s, err := astisub.ReadFromTeletext(bytes.NewReader(docData("ts-two-pages-888-889")), astisub.TeletextOptions{Page: 889, PID: 256})
+			if err != nil {
+				return "error: " + err.Error()
+			}
+			return dump.Subs(s)
+		}},
 		readOp("read-ttml-unmapped-lang", "ttml", []byte(`<tt xmlns="http://www.w3.org/ns/ttml" xml:lang="de"><body><div><p begin="1s" end="2s">x</p></div></body></tt>`)),
 		{"write-ttml-stl-unknown-lang", func(string) string {
 			l := richList("u")
